@@ -77,7 +77,13 @@ func genSessionIDs(t *rapid.T, n int) []quickfix.SessionID {
 		if len(ids) > 0 && rapid.Bool().Draw(t, "near") {
 			// differ from the first session in exactly one component
 			id = ids[0]
-			switch rapid.IntRange(0, 6).Draw(t, "which") {
+			switch rapid.IntRange(0, 9).Draw(t, "which") {
+			case 7:
+				id.TargetSubID += "x"
+			case 8:
+				id.SenderLocationID += "x"
+			case 9:
+				id.TargetCompID += "x"
 			case 5:
 				// same characters, different split between CompID and SubID
 				if i := strings.IndexByte(id.SenderCompID, '_'); i > 0 && id.SenderSubID == "" {
